@@ -135,6 +135,9 @@ func runC19(c c19Case) (v verdict, sig string, err error) {
 			return nil
 		}
 		if gerr != nil {
+			if r.Len() != rem || r.ReadCount() != pos {
+				return fmt.Errorf("step %d: %s with %d octets left failed (%v) and still moved the position: Len()=%d ReadCount()=%d, before the call %d and %d", i, name, rem, gerr, r.Len(), r.ReadCount(), rem, pos)
+			}
 			return fmt.Errorf("step %d: %s with %d octets left failed: %v", i, name, rem, gerr)
 		}
 		var want uint64
@@ -196,7 +199,9 @@ func runC19(c c19Case) (v verdict, sig string, err error) {
 				}
 				failedRead = true
 			} else {
-				if ge != nil {
+				if ge != nil && (r.Len() != rem || r.ReadCount() != pos) {
+					e = fmt.Errorf("step %d: Read(%d) with %d left failed (%v) and still moved the position: Len()=%d ReadCount()=%d, before the call %d and %d", i, op.N, rem, ge, r.Len(), r.ReadCount(), rem, pos)
+				} else if ge != nil {
 					e = fmt.Errorf("step %d: Read(%d) with %d left failed: %v", i, op.N, rem, ge)
 				} else if !bytes.Equal(d, buf[pos:pos+op.N]) {
 					e = fmt.Errorf("step %d: Read(%d) = %x, want %x", i, op.N, d, buf[pos:pos+op.N])
